@@ -8,6 +8,7 @@ import (
 	"fmt"
 	"os"
 	"os/exec"
+	"runtime"
 	"strings"
 	"time"
 
@@ -25,6 +26,10 @@ func runOne() {
 	sc.Buffer(make([]byte, 1<<16), 1<<24)
 	for sc.Scan() {
 		lines = append(lines, sc.Text())
+	}
+	if len(lines) > 0 && strings.Contains(lines[0], " bsx ") {
+		// sync.Pool keeps one private item per P: with one P a buffer handed to a pool is what the next Get returns
+		runtime.GOMAXPROCS(1)
 	}
 	out := bufio.NewWriter(os.Stdout)
 	res := runScriptStream(corr.Case{Lines: lines}, func(o string) {
